@@ -75,15 +75,18 @@ fn adversarial(t: &mut Tape, nrings: u32, mem: &[Region]) -> FReq {
                 (0..n)
                     .map(|_| {
                         let mut r = gen_region(t);
+                        // sizes stay small enough to be backed by a real file: a file shorter
+                        // than the mapping would make a later ring access SIGBUS, which is the
+                        // frontend breaking its own promise, not a property of the library
                         r.size = match t.draw(4) {
                             0 => 0x1000,
                             1 => 0x10_000,
-                            2 => r.size,
+                            2 => r.size.clamp(1, 0x10_0000),
                             _ => (t.draw(64) + 1) * 0x1000,
                         };
                         r.gpa = r.gpa.min(u64::MAX - r.size) & !0xfff;
                         r.uva = r.uva.min(u64::MAX - r.size);
-                        r.off = if t.chance(2, 3) { t.draw(4) * 0x1000 } else { r.off.min(u64::MAX - r.size) };
+                        r.off = if t.chance(2, 3) { t.draw(4) * 0x1000 } else { r.off.min(0x20_0000) };
                         r
                     })
                     .collect(),
@@ -103,21 +106,95 @@ fn adversarial(t: &mut Tape, nrings: u32, mem: &[Region]) -> FReq {
             gen_valid_req(t, k)
         }
         _ => {
-            let size = t.lattice64().max(1);
-            SetLogBase {
-                size,
-                off: t.lattice64().min(u64::MAX - size),
-            }
+            // sizes around what the current memory table needs, offsets aligned and not
+            let needed = mem.iter().map(|r| (r.gpa.saturating_add(r.size) - 1) / 0x1000 / 8 + 1).max().unwrap_or(1);
+            let size = match t.draw(6) {
+                0 => needed.saturating_sub(1).max(1),
+                1 => needed,
+                2 => needed + 1,
+                3 => 1,
+                4 => 0x1000,
+                _ => t.lattice64().max(1),
+            };
+            // the log file is always as long as the declared window (a shorter file would make
+            // the backend's own log write SIGBUS: the frontend breaking its promise), so the
+            // window is kept small enough to be backed for real
+            let size = size.min(1 << 22);
+            let off = match t.draw(4) {
+                0 => 0,
+                1 => 0x1000,
+                2 => 0x10,
+                _ => t.lattice64().min(0x10_0000),
+            };
+            SetLogBase { size, off }
         }
     }
 }
 
+/// Dirty-log prelude: a small memory table, ring 0 made live, then SET_LOG_BASE with a window
+/// that ends exactly at, one byte before and one byte after the byte holding the last guest
+/// page, then a region added on either side of the window's end. Every later kick makes the
+/// backend write into the last page of every region, through the log arithmetic of bitmap.rs.
+fn log_script(t: &mut Tape) -> Vec<FReq> {
+    use FReq::*;
+    let mut v = Vec::new();
+    let n = t.range(1, 3);
+    let mut regions = Vec::new();
+    let mut next_page = t.draw(24);
+    for i in 0..n {
+        let pages = t.range(1, 20);
+        regions.push(Region {
+            gpa: next_page * 0x1000,
+            size: pages * 0x1000,
+            uva: 0x7f00_0000_0000 + i * 0x1000_0000,
+            off: t.draw(2) * 0x1000,
+        });
+        next_page += pages + t.draw(9);
+    }
+    let last_page = regions.iter().map(|r| (r.gpa + r.size - 1) / 0x1000).max().unwrap();
+    v.push(SetMemTable(regions));
+    v.push(SetVringCall { idx: 0, nofd: false });
+    v.push(SetVringKick { idx: 0, nofd: false });
+    v.push(SetVringEnable { idx: 0, num: 1 });
+    let needed = last_page / 8 + 1;
+    let size = match t.draw(4) {
+        0 => needed - 1,
+        1 => needed,
+        2 => needed + 1,
+        _ => needed + t.draw(4),
+    }
+    .max(1);
+    v.push(SetLogBase { size, off: t.draw(2) * 0x1000 });
+    if t.chance(2, 3) {
+        // a region mapped after the log was set: its last page is the last one the window
+        // covers, the first one it does not, or somewhere near
+        let pages = t.range(1, 9);
+        let end_page = match t.draw(4) {
+            0 => size * 8 - 1,
+            1 => size * 8,
+            2 => size * 8 + 1,
+            _ => size * 8 - 1 - t.draw(8).min(size * 8 - 1),
+        };
+        let first = (end_page + 1).saturating_sub(pages).max(last_page + 1);
+        if first <= end_page {
+            v.push(AddMemReg(Region {
+                gpa: first * 0x1000,
+                size: (end_page + 1 - first) * 0x1000,
+                uva: 0x7f80_0000_0000,
+                off: 0,
+            }));
+        }
+    }
+    v
+}
+
 pub fn run(sim: &Sim, _cfg: &RunCfg) -> RunOut {
-    let rw = sim.with_w(|t| t.chance(1, 2));
-    if rw {
-        run_v::<VringRwLock<GM<()>>>(sim)
-    } else {
-        run_v::<VringMutex<GM<()>>>(sim)
+    match sim.with_w(|t| t.draw(3)) {
+        0 => run_v::<VringRwLock<GM<()>>, ()>(sim),
+        1 => run_v::<VringMutex<GM<()>>, ()>(sim),
+        // with a real dirty-log bitmap SET_LOG_BASE can succeed and the backend's writes go
+        // through the page arithmetic of bitmap.rs
+        _ => run_v::<VringRwLock<GM<vhost_user_backend::bitmap::BitmapMmapRegion>>, vhost_user_backend::bitmap::BitmapMmapRegion>(sim),
     }
 }
 
@@ -134,25 +211,36 @@ fn read_reply(fd: i32) -> Option<(spec::Hdr, Vec<u8>)> {
     Some((hdr, b))
 }
 
-fn run_v<V: VringT<GM<()>> + Clone + Send + Sync + 'static>(sim: &Sim) -> RunOut {
+fn run_v<V, B>(sim: &Sim) -> RunOut
+where
+    V: VringT<GM<B>> + Clone + Send + Sync + 'static,
+    B: vm_memory::bitmap::Bitmap + 'static + Clone + Send + Sync + vhost_user_backend::bitmap::BitmapReplace + vm_memory::mmap::NewBitmap,
+{
     let nrings = 2u32;
     let (adapter, masks, nmsg) = sim.with_w(|t| {
         let adapter = if t.chance(1, 2) { Adapter::Mutex } else { Adapter::RwLock };
         let masks: Vec<u64> = if t.chance(1, 2) { vec![0b11] } else { vec![0b01, 0b10] };
         (adapter, masks, t.range(3, 12))
     });
-    let stub = StubMut::<V, ()>::new(
+    // only a backend with a real dirty-log bitmap gets the dirty-log prelude
+    let with_log = std::any::TypeId::of::<B>() == std::any::TypeId::of::<vhost_user_backend::bitmap::BitmapMmapRegion>();
+    let mut script: std::collections::VecDeque<FReq> =
+        if with_log && sim.with_w(|t| t.chance(2, 3)) { sim.with_w(log_script).into() } else { Default::default() };
+    let scripted = !script.is_empty();
+    let nmsg = nmsg + script.len() as u64;
+    let stub = StubMut::<V, B>::new(
         StubCfg {
             num_queues: nrings as usize,
             queues_per_thread: masks.clone(),
             protocol_features: pf::MQ | pf::REPLY_ACK | pf::RESET_DEVICE | pf::CONFIGURE_MEM_SLOTS | pf::CONFIG | pf::LOG_SHMFD,
             add_used_on_event: true,
+            touch_memory_on_event: true,
             ..Default::default()
         },
         sim,
     );
     let log = stub.log.clone();
-    let mem = GuestMemoryAtomic::new(GuestMemoryMmap::<()>::new());
+    let mem = GuestMemoryAtomic::new(GuestMemoryMmap::<B>::new());
     let mut daemon = AnyDaemon::new(adapter, stub, mem);
     let path = sock_path();
     let mut listener = Listener::new(&path, true).expect("listener");
@@ -180,19 +268,28 @@ fn run_v<V: VringT<GM<()>> + Clone + Send + Sync + 'static>(sim: &Sim) -> RunOut
         }
         while sent < nmsg {
             sent += 1;
-            let req = sim.with_w(|t| adversarial(t, nrings, &known_mem));
+            let req = match script.pop_front() {
+                Some(r) => r,
+                None => sim.with_w(|t| adversarial(t, nrings, &known_mem)),
+            };
             let lent = match &req {
                 FReq::SetMemTable(rs) => {
                     // real, sufficiently large files where the geometry allows it
                     let mut l = Lent { files: Vec::new(), eventfd: None };
                     for r in rs {
-                        let len = r.off.saturating_add(r.size).min(1 << 22);
+                        // always at least as long as the mapping (rounded up to a page)
+                        let len = (r.off.saturating_add(r.size) + 0xfff) & !0xfff;
                         l.files.push(fdu::memfd("advmem", len));
                     }
                     l
                 }
                 FReq::AddMemReg(r) => Lent {
-                    files: vec![fdu::memfd("advmem", r.off.saturating_add(r.size).min(1 << 22))],
+                    files: vec![fdu::memfd("advmem", (r.off.saturating_add(r.size) + 0xfff) & !0xfff)],
+                    eventfd: None,
+                },
+                FReq::SetLogBase { size, off } => Lent {
+                    // a real log file, long enough for every byte the current table can index
+                    files: vec![fdu::memfd("advlog", (off.saturating_add(*size) + 0x1fff) & !0xfff)],
                     eventfd: None,
                 },
                 r => Lent::for_req(r),
@@ -247,7 +344,7 @@ fn run_v<V: VringT<GM<()>> + Clone + Send + Sync + 'static>(sim: &Sim) -> RunOut
                 }
             }
             // let the backend touch the rings with whatever was configured
-            if sim.with_w(|t| t.chance(1, 3)) {
+            if (scripted && script.is_empty()) || sim.with_w(|t| t.chance(1, 3)) {
                 for k in &kickfds {
                     sched::point("guest.before_kick");
                     fdu::eventfd_write(k.as_raw_fd(), 1);
